@@ -25,7 +25,7 @@ func init() {
 		},
 		NumCases: func(tier string) int {
 			if tier == "thorough" {
-				return c01EnumCases("thorough") + 40000
+				return c01EnumCases("thorough") + 200000
 			}
 			return c01EnumCases("quick") + 2500
 		},
@@ -44,7 +44,7 @@ func init() {
 		},
 		NumCases: func(tier string) int {
 			if tier == "thorough" {
-				return c01EnumCases("thorough") + 40000
+				return c01EnumCases("thorough") + 300000
 			}
 			return c01EnumCases("quick") + 3000
 		},
